@@ -412,6 +412,24 @@ def radix_parser(ctx, facts, rp, clause, cfg):
     through the integer parser of the standard library and/or a fold acc·radix + digit from 0."""
     if rp is None:
         raise Inconclusive("radix parser body not available")
+    # ---- exactness: the digits are valued by the exact integer parser (one rounding, `as f64`); a floating accumulation
+    # acc·radix + digit rounds at every step once the value passes 2^53 and may end one ulp away from the double
+    # ECMAScript prescribes.  Positive evidence of the defect: f64 arithmetic in the parser and no integer parse at all.
+    runit = [facts.body(k) for k in sorted(facts.reach([rp.key])) if facts.body(k) is not None]
+    has_int_parse = any(re.search(r"^core::num::<impl [ui](64|128|size)>::from_str_radix$", callee_path(t) or "") for b_ in runit for _, t in b_.calls())
+    float_arith = [(b_, bi, si) for b_ in runit for bi, si, st in b_.stmts() if st["k"] == "Assign" and st["rv"]["k"] == "BinaryOp" and st["rv"]["op"] in ("Mul", "Add") and st["rv"].get("opty") in ("f64", "f32")]
+    WIDE = ("u64", "u128", "i64", "i128", "usize", "isize")
+    int_arith = any(re.search(r"^core::num::<impl (u64|u128|i64|i128|usize|isize)>::(checked_|wrapping_|overflowing_|saturating_)?(mul|add)$", callee_path(t) or "") for b_ in runit for _, t in b_.calls()) or \
+        any(st["k"] == "Assign" and st["rv"]["k"] in ("BinaryOp", "CheckedBinaryOp") and st["rv"].get("op") in ("Mul", "Add", "MulWithOverflow", "AddWithOverflow") and st["rv"].get("opty") in WIDE for b_ in runit for bi, si, st in b_.stmts())
+    if has_int_parse:
+        ctx.ok(clause + ".radix-exact", "the digits are valued by the exact integer parser (%s)" % cfg, nontrivial=True)
+    elif int_arith:
+        ctx.unread(clause + ".radix-exact", "digit parser (%s)" % cfg, "the digits are accumulated in a wide integer by the parser's own arithmetic (no from_str_radix): whether the double is the exact integer converted once is not read", where=rp.where(), fn=rp.key)
+    elif float_arith:
+        b_, bi, si = float_arith[0]
+        ctx.fail(clause + ".radix-exact", "floating accumulation only (%s)" % cfg, "the digits of a prefixed literal are only accumulated in floating point (acc·radix + digit, rounded at every step): literals with more than 53 significant bits can differ from the correctly rounded double; no exact integer parse (from_str_radix) is made", where=b_.where(bi, si), fn=b_.key)
+    else:
+        ctx.unread(clause + ".radix-exact", "digit parser (%s)" % cfg, "neither an integer parse nor a floating accumulation found in the digit parser", where=rp.where(), fn=rp.key)
     if PN.loops_of(rp) and not any(re.search(r"Iterator(>)?::(all|fold)$", callee_path(t) or "") for b_ in [rp] + [b for b in facts.fns() if b.key.startswith(rp.key + "::{closure#")] for _, t in b_.calls()):
         ctx.unread(clause + ".radix-results", "digit parser (%s)" % cfg, "the digit parser is written with explicit loops: its guards and its valuation are not read (the ban on other digit tests and the radix set still apply)", where=rp.where(), fn=rp.key)
         return
